@@ -82,19 +82,23 @@ LineInDomain(toks) == /\ LineTexts(toks, TRUE) \cap LineTexts(toks, FALSE) = {}
                       /\ \A j, k \in DOMAIN toks : (j # k /\ toks[j].k = "expand" /\ toks[k].k = "expand") => toks[j].name # toks[k].name
 
 (* ---- a configured domain: the logs its three stacks must behave as ----
-   cfg = [nodes: profile nodes, parents first, each
-                 [use: plain token stream of make.defaults USE,
+   cfg = [nodes: profile nodes (the last one is the configured profile), each
+                 [parents: indices of earlier nodes, in `parent` file order,
+                  use: plain token stream of make.defaults USE,
                   pkguse / pkgforce / pkgmask: entries (atom scopes) of package.use / .force / .mask,
                   force / mask: the (neg, pos) pair of use.force / use.mask],
           conf: plain token stream of the user's USE,   arch: the ARCH flag,
           user: the lines of the user's package.use  [sc, toks]]
    Global USE is one incremental stream: profile USE (parents first), then the user's; its chunk is
    the condensed form of that stream (Incremental!Condense).                                    *)
-GlobalStream(cfg) == LET f[k \in 0..Len(cfg.nodes)] == IF k = 0 THEN <<>> ELSE f[k - 1] \o cfg.nodes[k].use
-                     IN f[Len(cfg.nodes)] \o cfg.conf
+\* every per-node layer is taken in STACK order (Incremental!StackSeq: a node reached through several
+\* parents contributes once per path, at each of its positions)
+OverStack(cfg, Pick(_)) == LET st == StackSeq(cfg.nodes)
+                               f[k \in 0..Len(st)] == IF k = 0 THEN <<>> ELSE f[k - 1] \o Pick(cfg.nodes[st[k]])
+                           IN f[Len(st)]
+GlobalStream(cfg) == OverStack(cfg, LAMBDA n : n.use) \o cfg.conf
 StreamChunk(ts) == Entry("glob", NegBodies(Condense(ts)), PosBodies(Condense(ts)))
-NodeConcat(cfg, Pick(_)) == LET f[k \in 0..Len(cfg.nodes)] == IF k = 0 THEN <<>> ELSE f[k - 1] \o Pick(cfg.nodes[k])
-                            IN f[Len(cfg.nodes)]
+NodeConcat(cfg, Pick(_)) == OverStack(cfg, Pick)
 \* the canonical (neg, pos) pair of a line over the flag universe: what it forces off / on
 LineChunk(toks) == [neg |-> Flags \ LineFold(toks, Flags), pos |-> LineFold(toks, {})]
 LineEntry(ln) == Entry(ln.sc, LineChunk(ln.toks).neg, LineChunk(ln.toks).pos)
